@@ -7,6 +7,7 @@ import (
 
 	"go.sia.tech/core/types"
 
+	"verif/harness/lab/rhplab"
 	"verif/harness/mon"
 )
 
@@ -26,11 +27,22 @@ func (c *c08) chainStep(st c08Step) error {
 	}
 	id := c.contract.ID
 	what := st.RPC
+	// the contract this one was renewed from, if any: the host must keep it as it is
+	var predID types.FileContractID
+	var predPre rhplab.HostState
+	hasPred := false
+	if n := len(c.prev); n > 0 && c.prev[n-1].ID.V2RenewalID() == id {
+		predID = c.prev[n-1].ID
+		if ps, err := c.lab.State(predID); err == nil {
+			predPre, hasPred = ps, true
+		}
+	}
 	switch st.RPC {
 	case "publish":
 		onchain, err := c.lab.OnChainRevisionNumber(id)
 		if err != nil {
-			return inconclusive("on-chain element: %v", err)
+			c.r.Count("publish_contract_not_on_chain", 1)
+			return nil
 		}
 		var cands []types.V2FileContract
 		for _, rv := range append(slices.Clone(c.oldRevs), pre.State.Revision) {
@@ -81,15 +93,27 @@ func (c *c08) chainStep(st c08Step) error {
 		}
 	case "reorg":
 		depth := min(int(st.Length), int(c.lab.CM.Tip().Height-c.formedAt))
+		if st.Offset == 1 {
+			// also the block that confirmed the contract's creation (formation or renewal)
+			depth = int(c.lab.CM.Tip().Height-c.formedAt) + 1
+		}
 		if depth <= 0 {
 			return nil
 		}
-		before, _ := c.lab.OnChainRevisionNumber(id)
+		before, berr := c.lab.OnChainRevisionNumber(id)
 		if err := c.lab.Reorg(depth); err != nil {
 			return inconclusive("reorg: %v", err)
 		}
 		c.r.Count("reorgs", 1)
-		if after, _ := c.lab.OnChainRevisionNumber(id); after != before {
+		if _, _, ok := c.lab.Element(id); berr == nil && !ok {
+			what = "reorg-unconfirming-creation"
+			c.r.Count("reorgs_unconfirming_a_creation", 1)
+			if len(c.prev) > 0 && c.prev[len(c.prev)-1].ID.V2RenewalID() == id {
+				what = "reorg-unconfirming-renewal"
+				c.r.Count("reorgs_unconfirming_a_renewal", 1)
+			}
+			c.r.Distinct(what)
+		} else if after, _ := c.lab.OnChainRevisionNumber(id); after != before {
 			what = "reorg-unconfirming-revision"
 			c.r.Count("reorgs_unconfirming_a_revision", 1)
 			c.r.Distinct(fmt.Sprintf("reorg:%d->%d", before, after))
@@ -99,7 +123,12 @@ func (c *c08) chainStep(st c08Step) error {
 	c.aud.cs = c.cs
 	post, err := c.snapshot()
 	if err != nil {
-		return inconclusive("post-snapshot: %v", err)
+		// the state was readable before the chain event and no RPC ran
+		c.r.Eval()
+		c.report("contract-lost-by-chain-event:"+what, "after a chain event the host no longer holds a contract it signed (latest revision and roots gone): "+err.Error(), nil,
+			map[string]any{"event": what, "revision_number_before": pre.State.Revision.RevisionNumber})
+		c.lab.Log.ForgetLock(id)
+		return c.newContract()
 	}
 	c.r.Eval()
 	c.aud.audit() // nothing may have been persisted
@@ -115,11 +144,84 @@ func (c *c08) chainStep(st c08Step) error {
 	default:
 		c.r.Count("chain_events_changed_nothing", 1)
 	}
+	if hasPred {
+		predPost, err := c.lab.State(predID)
+		switch {
+		case err != nil:
+			c.report("renewed-away-contract-lost:"+what, "after a chain event the host no longer holds the contract that was renewed: "+err.Error(), nil, detail)
+		case !predPost.Equal(predPre):
+			c.report("renewed-away-contract-changed:"+what, fmt.Sprintf("a chain event changed the renewed-away contract (renewed %v -> %v, revisable %v -> %v)", predPre.Renewed, predPost.Renewed, predPre.Revisable, predPost.Revisable), nil, detail)
+		default:
+			c.r.Count("renewed_away_contracts_unchanged_by_chain_event", 1)
+		}
+	}
 	if !post.State.Equal(pre.State) {
 		return c.newContract()
 	}
 	c.afterChain = what
 	return nil
+}
+
+// creationReorg: a longer fork reverts the block that confirmed the creation
+// of the current contract (a formation, or a renewal / refresh); the creating
+// transaction returns to the pool and is mined again later. The host still
+// knows every contract it signed, with its latest revision, roots and flags:
+// the renewal is served, the renewed-away contract stays refused.
+func (c *c08) creationReorg(kind string) error {
+	// always from a freshly formed contract (whose element the Contractor tracks correctly)
+	if err := c.newContract(); err != nil {
+		return err
+	}
+	if kind != "formation" {
+		for _, st := range []c08Step{{RPC: "append", Batch: []string{"new", "new", "new"}}, {RPC: "free", Indices: []uint64{1}}, c.genGood(c.rng, "fund")} {
+			if err := c.step(st); err != nil {
+				return err
+			}
+		}
+		before := len(c.prev)
+		if err := c.step(c08Step{RPC: kind}); err != nil { // confirms the renewal and moves on to it
+			return err
+		}
+		if len(c.prev) == before {
+			return nil
+		}
+	}
+	id := c.contract.ID
+	for _, st := range []c08Step{c.genGood(c.rng, "fund"), {RPC: "append", Batch: []string{"new", "new"}}} {
+		if err := c.step(st); err != nil {
+			return err
+		}
+	}
+	if err := c.step(c08Step{RPC: "reorg", Offset: 1}); err != nil {
+		return err
+	}
+	if c.contract.ID != id {
+		return nil // findings reported, contract replaced
+	}
+	// while its creation is unconfirmed the contract is served as before
+	steps := []c08Step{c.genGood(c.rng, "fund"), {RPC: "latest"}, {RPC: "free", Indices: []uint64{0}}}
+	if kind != "formation" {
+		steps = append(steps, c08Step{RPC: "select", Offset: 1}, c08Step{RPC: "fund", Bad: "not-revisable", Accounts: []int{0}, Amounts: []uint64{5}},
+			c08Step{RPC: "append", Bad: "not-revisable", Batch: []string{"new"}}, c08Step{RPC: "select"})
+	}
+	// the creation is mined again; then everything goes on, consensus oracle included
+	steps = append(steps, c08Step{RPC: "mine", Length: 1}, c.genGood(c.rng, "fund"), c08Step{RPC: "roots", Offset: 0, Length: 1})
+	for _, st := range steps {
+		if err := c.step(st); err != nil {
+			return err
+		}
+		if c.contract.ID != id && c.active == nil {
+			return nil
+		}
+	}
+	if _, _, ok := c.lab.Element(id); ok {
+		c.r.Count("creations_confirmed_again_after_reorg", 1)
+		c.formedAt = c.lab.CM.Tip().Height
+		return nil
+	}
+	// the creating transaction did not make it back into a block: carry on elsewhere
+	c.r.Count("creations_not_reconfirmed", 1)
+	return c.newContract()
 }
 
 // c08Chain interleaves committed RPCs with blocks that confirm earlier
@@ -137,8 +239,14 @@ func c08Chain(r *mon.Run, worker int) error {
 	if err := c.step(c08Step{RPC: "append", Batch: []string{"new", "new", "new"}}); err != nil {
 		return err
 	}
-	rounds := r.Pick(45, 130)
+	rounds := r.Pick(45, 60)
 	for round := 0; round < rounds; round++ {
+		if round%4 == 1 {
+			if err := c.creationReorg([]string{"formation", "renew", "refresh-partial", "refresh-full"}[(round/5+worker)%4]); err != nil {
+				return err
+			}
+			continue
+		}
 		if c.lab.CM.Tip().Height+40 > c.contract.Revision.ProofHeight {
 			if err := c.newContract(); err != nil {
 				return err
